@@ -3,6 +3,7 @@
 # writes /tmp/confirm/results/<ID>.json ; removes the worktree afterwards
 ID=$1; PATCH=$(readlink -f $2); DEMO=$(readlink -f $3)
 WT=/tmp/confirm/wt_$ID
+export NUMBA_NUM_THREADS=1 OMP_NUM_THREADS=1 OPENBLAS_NUM_THREADS=1 MKL_NUM_THREADS=1
 mkdir -p /tmp/confirm/results
 git -C /repo worktree remove --force $WT 2>/dev/null
 git -C /repo worktree add --detach $WT HEAD -q || exit 9
